@@ -21,6 +21,7 @@ class Config:
         if opaque:
             self.opaque.update(opaque)
         self.max_depth = max_depth
+        self.force = None
         self.unroll = unroll
         self.max_steps = max_steps
         self.inline_layer = set(inline_layer)
@@ -108,6 +109,14 @@ class InterpBase:
             self.facts[atom] = v
             self._apply_fact(atom, v)
             return v
+        if self.cfg.force is not None:
+            # a rule may pin decisions it does not quantify over (e.g. "every loop runs exactly once")
+            v = self.cfg.force(atom, domain)
+            if v is not None:
+                self.facts[atom] = v
+                self._apply_fact(atom, v)
+                self.decisions.append((atom, v))
+                return v
         raise Need(atom, domain)
 
     def _apply_fact(self, atom, val):
